@@ -15,6 +15,7 @@ var allStackKinds = []string{"default", "blocking", "deadline", "queue", "queue"
 func init() {
 	Register(&Prop{
 		ID: "C02", Bubble: true, Run: runC02, QuickRuns: 2000,
+		ExpectedProbes: []string{"caller_blocked", "caller_refused", "blocked_then_granted", "blocked_then_refused", "gave_up_after_cancel"},
 		Rule: "one run = one seeded scenario (limiter stack among default/blocking/deadline/queue FIFO+LIFO/deprecated ctors/pools over simple/precise/lookup/predicate strategies, limit 1..3, 1..6 callers with arrival/hold instants on a 1 ms grid, timeouts and deadlines on the same grid so that give-ups coincide with releases, cancellations, all three outcomes) under one seeded schedule; " +
 			"oracle at every stable point and after draining: strategy busy == partition bins == limiter in-flight gauge == harness ledger, queue_size gauge == callers blocked, listener!=nil iff ok, full limit admitted again; " +
 			"non-trivial = some caller blocked in Acquire or was refused; distinct = distinct event hashes",
@@ -26,6 +27,7 @@ func init() {
 	})
 	Register(&Prop{
 		ID: "C12", Bubble: true, Run: runC12, QuickRuns: 2500,
+		ExpectedProbes: []string{"simultaneous_arrivals_inside_acquire", "solo_acquire_checked", "blocked_then_refused", "gave_up_after_cancel"},
 		Rule: "one run = queue limiter (config FIFO/LIFO/default, deprecated ctors, queue pools), backlog 1..4, limit 1..2, 2..7 arrivals (several simultaneous), releases, timeouts and cancellations on a 1 ms grid, one seeded schedule; " +
 			"oracle: at every quiescent point callers blocked <= max backlog; at stable points queue_size gauge == callers blocked; an Acquire that ran solo from a stable state must be granted / refused at once / blocked exactly as the sequential model says; " +
 			"non-trivial = at least two Acquire calls were inside the limiter at the same time or a give-up coincided with a release instant; distinct = distinct event hashes",
@@ -35,6 +37,7 @@ func init() {
 	})
 	Register(&Prop{
 		ID: "C13", Bubble: true, Run: runC13, QuickRuns: 2500,
+		ExpectedProbes: []string{"returned_exactly_at_bound", "refused_at_arrival", "precancelled_or_late_call_with_free_capacity", "legitimately_blocked_at_end"},
 		Rule: "one run = blocking / deadline / queue limiter with all capacity held for the whole run (variant A) or released on the same 1 ms grid as the bounds (variant B); callers arrive at grid instants with backlog timeouts (1 ns .. 1 h, 0 = documented default 1 s), deadlines at/before/after creation and arrival, cancellations before/at/after arrival; " +
 			"oracle on the virtual clock: a refused blocked call returned exactly at its bound (arrival+timeout, deadline, cancel instant), never earlier, never later; calls with an already-cancelled context or after the deadline are refused at the arrival instant without consuming capacity; " +
 			"non-trivial = at least one caller was blocked and returned at a bound; distinct = distinct event hashes",
@@ -45,6 +48,7 @@ func init() {
 	})
 	Register(&Prop{
 		ID: "C19", Bubble: true, Run: runC19, QuickRuns: 2500,
+		ExpectedProbes: []string{"more_callers_than_limit", "blocked_then_granted"},
 		Rule: "one run = FixedPool or Pool (random/FIFO/LIFO), limit 1..4, callers <= limit + backlog, hold times on the virtual clock whose sum stays below the backlog timeout, staggered or simultaneous arrivals, one seeded schedule; " +
 			"oracle: tokens held <= limit at every quiescent point; when the schedule ends every caller was granted; " +
 			"non-trivial = more callers than the limit (somebody had to wait); distinct = distinct event hashes",
@@ -237,6 +241,12 @@ func runC13(r *Run) {
 		// BlockingLimiter with a poll timeout: same as "blocking"
 	}
 	s := sc.s
+	if variantB {
+		// F-lag (strict): a releaser may be slow in the middle of its release; callers that were themselves
+		// runnable while time passed are not judged
+		s.LagPct = []int{0, 0, 15}[t.Intn(3, "lag-pct")]
+		s.LagStrict = true
+	}
 	sc.start()
 	s.OnDrain = sc.drainHeld
 	cfg := sc.cfg
@@ -290,7 +300,7 @@ func c13End(r *Run, sc *scen, variantB, isQueue, isBlocking bool) func() {
 	return func() {
 		end := s.Now()
 		for i, cl := range sc.clients {
-			if cl.acq == nil {
+			if cl.acq == nil || cl.tk.Lagged {
 				continue
 			}
 			arrive := cl.acq.CallT
